@@ -555,7 +555,7 @@ def check(pid, tier, seed, replay_path, replay_tie=None):
             # search for a failing input when something broke but no oracle failure yet
             if (broken or corr_broken) and not any_fail_input and not replay_path:
                 sn = int(tie.get("tiers", {}).get(tier, {}).get("search_n",
-                         4 * int(tie.get("tiers", {}).get(tier, {}).get("n", 1000))))
+                         int(tie.get("tiers", {}).get(tier, {}).get("n", 1000))))
                 for k in range(3):
                     s = seed * 7919 + 17 + k
                     outdir = os.path.join(scratch, "%s_search_%d" % (tie["name"], k))
